@@ -120,9 +120,41 @@ Qed.
 Lemma rel_c1 : rel (Some (1 # 1)%Q) 1. Proof. rewrite <- Q2R_1. apply rel_some. Qed.
 Lemma rel_c2 : rel (Some (2 # 1)%Q) 2. Proof. rewrite <- Q2R_2. apply rel_some. Qed.
 
+(** local assignments of a differentiator function: [obind] on the rational side; on the real side the [let]s are
+    gone after unfolding, so the real counterpart of the bound expression is synthesised ([rel_syn] on an evar) and
+    replaced by the image of the bound rational *)
+Lemma rel_obind (a : option Q) (f : Q -> option Q) (r : R) :
+  (forall x, a = Some x -> rel (f x) r) -> rel (obind a f) r.
+Proof. intros Hf z H. destruct a as [q|]; [|discriminate H]. exact (Hf q eq_refl z H). Qed.
+
+Ltac rel_syn :=
+  repeat first
+    [ match goal with
+      | |- rel (Some (1 # 1)%Q) _ => apply rel_c1
+      | |- rel (Some (2 # 1)%Q) _ => apply rel_c2
+      | |- rel (Some _) _ => apply rel_some          (* only a syntactic [Some]: no unification by computing *)
+      | |- rel (oadd _ _) _ => apply rel_oadd
+      | |- rel (osub _ _) _ => apply rel_osub
+      | |- rel (omul _ _) _ => apply rel_omul
+      | |- rel (odiv _ _) _ => apply rel_odiv
+      | |- rel (oneg _) _ => apply rel_oneg
+      | |- rel (opow _ _) _ => apply rel_opow
+      end ].
+
+Ltac rel_let :=
+  match goal with
+  | |- rel (obind ?a ?f) ?r =>
+      first
+        [ solve [let z := fresh in let H := fresh in intros z H; cbn in H; discriminate H]
+        | let Ha := fresh "Ha" in let x := fresh "l" in let Hx := fresh "Hl" in let E := fresh "E" in
+          eassert (Ha : rel a _); [ solve [rel_syn] | ];
+          apply rel_obind; intros x Hx; pose proof (Ha x Hx) as E; rewrite ?E; clear E Ha Hx; cbv beta ]
+  end.
+
 Ltac rel_tac :=
   repeat first
-    [ apply rel_none | apply rel_some | apply rel_c1 | apply rel_c2
+    [ rel_let
+    | apply rel_none | apply rel_some | apply rel_c1 | apply rel_c2
     | apply rel_oadd | apply rel_osub | apply rel_omul | apply rel_odiv | apply rel_oneg | apply rel_opow ].
 
 Lemma rel_qd_u o v d : rel (qd_u o v d) (d_u o (Q2R v) (Q2R d)).
